@@ -165,10 +165,19 @@ func genC06(seed uint64, idx int, tier string) *Scenario {
 		sc.Actors = append(sc.Actors, a)
 	}
 	sc.Schedule = r.Schedule(40)
-	if r.Chance(0.3) {
+	if r.Chance(0.4) {
 		for i := range sc.Schedule {
 			if r.Chance(0.4) {
-				sc.Schedule[i] |= 1 << 16
+				sc.Schedule[i] |= 1<<16 | r.Intn(4)<<17
+			}
+		}
+		if r.Chance(0.5) {
+			// senders released in the same step give way to each other at the bus's synchronisation points
+			if r.Chance(0.5) {
+				sc.Params["yield_pct"] = []int{20, 50, 80}[r.Intn(3)]
+			} else {
+				sc.Params["yield_pct"] = 50
+				sc.Params["yield_hot"] = []int{20, 40}[r.Intn(2)]
 			}
 		}
 	}
